@@ -76,6 +76,9 @@ def tmodel(*keys):
 @tmodel("from_os_str::parse_os_str", "parse_os_str")
 def m_parse_os_str(ex, c, args):
     os = rda(args[0])
+    if getattr(ex, "conv", "u32") == "string":
+        # grammars whose values are OsString: the conversion is the identity and cannot fail
+        return OK(os)
     t = ex.str_term(os)
     if ex.branch(VALID(t), "valid"):
         return OK(U32OF(t))
@@ -473,6 +476,15 @@ class Concretizer:
                 out.append("--" + self.string(w.name))
             elif f == "long=":
                 out.append("--" + self.string(w.name) + "=" + self.string(w.val))
+            # the whole text of a named item (Arg::Short / Arg::Long carry it; `any` and error messages read it)
+            os = getattr(w, "os", None)
+            if os is not None and f not in ("word", "pos", "dd"):
+                try:
+                    i = self.ival(os) if not isinstance(os, int) else os
+                    if i not in self.ex.strrev:
+                        self.fresh[i] = out[-1]
+                except Exception:  # noqa: BLE001
+                    pass
         return out
 
     def env(self, names):
